@@ -166,6 +166,7 @@ def signal_worker(k):
                 xc = ocp3.control(order=2)
                 p3 = ocp3.parameter(grid="bspline", order=d)
                 dp = ocp3.der(p3)
+                dp2 = ocp3.der(dp) if d >= 2 else None    # declared before the first transcription
                 ocp3.add_objective(ocp3.sum((xc - p3) ** 2, include_last=True))
                 ocp3.set_value(p3, ca.DM(coeffs).T)
                 ocp3.method(rockit.SplineMethod(N=N))
@@ -174,6 +175,11 @@ def signal_worker(k):
                 o3 = ocp3._method.opti
                 out["der_t"] = np.array(o3.debug.value(td, o3.initial())).reshape(-1).tolist()
                 out["der_v"] = np.array(o3.debug.value(pd, o3.initial())).reshape(-1).tolist()
+                if d >= 2:
+                    # higher derivatives: der(der(p)) is the second derivative in physical time
+                    td2, pd2 = ocp3.sample(dp2, grid="control", refine=r)
+                    out["der2_t"] = np.array(o3.debug.value(td2, o3.initial())).reshape(-1).tolist()
+                    out["der2_v"] = np.array(o3.debug.value(pd2, o3.initial())).reshape(-1).tolist()
             # (b) SplineMethod: chain of length L = d+1 (x_1' = x_2, ..., x_d' = u) -> degree-d spline for x_1
             L = max(d, 1)
             ocp2 = rockit.Ocp(t0=t0, T=T)
@@ -231,6 +237,13 @@ def judge_signal(k, r):
             m = cdb_value(k1, d - 1, dc, sn)
             if not engine.close(v, m, rtol=1e-8, scale=abs(m)):
                 return [{"what": "der() of a bspline signal is not the analytic derivative in physical time", "t": t, "rockit": v, "model": m}]
+        if d >= 2 and "der2_v" in r:
+            dc2 = [(d - 1) * (dc[i + 1] - dc[i]) / (k1[i + d] - k1[i + 1]) / T for i in range(len(dc) - 1)]
+            k2 = [xi[0]] * (d - 2) + xi + [xi[-1]] * (d - 2)
+            for t, v in zip(r["der2_t"], r["der2_v"]):
+                m = cdb_value(k2, d - 2, dc2, (t - t0) / T)
+                if not engine.close(v, m, rtol=1e-8, scale=abs(m)):
+                    return [{"what": "der(der()) of a bspline signal is not the second derivative in physical time", "t": t, "rockit": v, "model": m}]
     sm = r["sm"]
     L = sm["L"]
     dd = L
